@@ -28,31 +28,31 @@ Section Mono.
       + intros ts r H. rewrite p_expr_S in *.
         destruct (p_term row f ts) as [[a r1]|] eqn:E; [|discriminate]. rewrite (IHt _ _ E). apply IHel, H.
       + intros acc ts r H. rewrite p_expr_loop_S in *.
-        destruct ts as [|[x k|g|s| | | | | | | | | | ] r0]; try exact H.
+        destruct ts as [|[x k|g|s| | | | | | | | | | |xt] r0]; try exact H.
         * destruct (p_term row f r0) as [[b r1]|] eqn:E; [|discriminate]. rewrite (IHt _ _ E). apply IHel, H.
         * destruct (p_term row f r0) as [[b r1]|] eqn:E; [|discriminate]. rewrite (IHt _ _ E). apply IHel, H.
       + intros ts r H. rewrite p_term_S in *.
         destruct (p_factor row f ts) as [[a r1]|] eqn:E; [|discriminate]. rewrite (IHf _ _ E). apply IHtl, H.
       + intros acc ts r H. rewrite p_term_loop_S in *.
-        destruct ts as [|[x k|g|s| | | | | | | | | | ] r0]; try exact H.
+        destruct ts as [|[x k|g|s| | | | | | | | | | |xt] r0]; try exact H.
         * destruct (p_factor row f r0) as [[b r1]|] eqn:E; [|discriminate]. rewrite (IHf _ _ E). apply IHtl, H.
         * destruct (p_factor row f r0) as [[b r1]|] eqn:E; [|discriminate]. rewrite (IHf _ _ E). apply IHtl, H.
       + intros ts r H. rewrite p_factor_S in *.
-        destruct ts as [|[x k|g|s| | | | | | | | | | ] r0]; try (apply IHp, H).
+        destruct ts as [|[x k|g|s| | | | | | | | | | |xt] r0]; try (apply IHp, H).
         destruct (p_factor row f r0) as [[a r1]|] eqn:E; [|discriminate]. rewrite (IHf _ _ E). exact H.
       + intros ts r H. rewrite p_power_S in *.
         destruct (p_atom row f ts) as [[a r1]|] eqn:E; [|discriminate]. rewrite (IHa _ _ E).
-        destruct r1 as [|[x k|g|s| | | | | | | | | | ] r1]; try exact H.
+        destruct r1 as [|[x k|g|s| | | | | | | | | | |xt] r1]; try exact H.
         destruct (p_factor row f r1) as [[b r2]|] eqn:E2; [|discriminate]. rewrite (IHf _ _ E2). exact H.
       + intros ts r H. rewrite p_atom_S in *.
-        destruct ts as [|[x k|g|s| | | | | | | | | | ] r0]; try exact H.
-        * destruct r0 as [|[x k|g'|s| | | | | | | | | | ] r0]; try exact H.
+        destruct ts as [|[x k|g|s| | | | | | | | | | |xt] r0]; try exact H.
+        * destruct r0 as [|[x k|g'|s| | | | | | | | | | |xt] r0]; try exact H.
           destruct (fun_kind g) as [k|]; [|discriminate].
           destruct (p_args row f r0) as [[args r1]|] eqn:E; [|discriminate]. rewrite (IHas _ _ E). exact H.
         * destruct (p_expr row f r0) as [[e r1]|] eqn:E; [|discriminate]. rewrite (IHe _ _ E). exact H.
       + intros ts r H. rewrite p_args_S in *.
         destruct (p_expr row f ts) as [[e r1]|] eqn:E; [|discriminate]. rewrite (IHe _ _ E).
-        destruct r1 as [|[x k|g|s| | | | | | | | | | ] r1]; try exact H.
+        destruct r1 as [|[x k|g|s| | | | | | | | | | |xt] r1]; try exact H.
         destruct (p_args row f r1) as [[es r2]|] eqn:E2; [|discriminate]. rewrite (IHas _ _ E2). exact H.
   Qed.
 
@@ -113,7 +113,7 @@ Section Mono.
         rewrite (mono_term' _ _ _ (4 + 8 * (len ts - len rest)) E1 ltac:(lia)).
         apply (mono_expr_loop (1 + 8 * (len r1 - len rest))); [lia|exact E2].
       + (* p_expr_loop *) intros acc ts e rest H. rewrite p_expr_loop_S in H.
-        destruct ts as [|[x k|g|s| | | | | | | | | | ] r0];
+        destruct ts as [|[x k|g|s| | | | | | | | | | |xt] r0];
           try (inversion H; subst; split; [lia|]; rewrite Nat.sub_diag; reflexivity).
         * destruct (p_term row f r0) as [[b r1]|] eqn:E; [|discriminate].
           destruct (IHt _ _ _ E) as [L1 E1]. destruct (IHel _ _ _ _ H) as [L2 E2]. cbn [length]. split; [lia|].
@@ -132,7 +132,7 @@ Section Mono.
         rewrite (mono_factor' _ _ _ (3 + 8 * (len ts - len rest)) E1 ltac:(lia)).
         apply (mono_term_loop (1 + 8 * (len r1 - len rest))); [lia|exact E2].
       + (* p_term_loop *) intros acc ts e rest H. rewrite p_term_loop_S in H.
-        destruct ts as [|[x k|g|s| | | | | | | | | | ] r0];
+        destruct ts as [|[x k|g|s| | | | | | | | | | |xt] r0];
           try (inversion H; subst; split; [lia|]; rewrite Nat.sub_diag; reflexivity).
         * destruct (p_factor row f r0) as [[b r1]|] eqn:E; [|discriminate].
           destruct (IHf _ _ _ E) as [L1 E1]. destruct (IHtl _ _ _ _ H) as [L2 E2]. cbn [length]. split; [lia|].
@@ -147,7 +147,7 @@ Section Mono.
       + (* p_factor *) intros ts e rest H. rewrite p_factor_S in H.
         assert (P : p_power row f ts = Some (e, rest) ->
                     len rest < len ts /\ p_power row (2 + 8 * (len ts - len rest)) ts = Some (e, rest)) by (apply IHp).
-        destruct ts as [|[x k|g|s| | | | | | | | | | ] r0];
+        destruct ts as [|[x k|g|s| | | | | | | | | | |xt] r0];
           try (destruct (P H) as [L1 E1]; split; [exact L1|];
                match goal with |- p_factor row (3 + 8 * ?n) ?t = _ =>
                  replace (3 + 8 * n) with (S (2 + 8 * n)) by lia; rewrite p_factor_S; exact E1 end).
@@ -157,7 +157,7 @@ Section Mono.
         rewrite (mono_factor' _ _ _ (2 + 8 * (S (len r0) - len rest)) E1 ltac:(lia)). reflexivity.
       + (* p_power *) intros ts e rest H. rewrite p_power_S in H.
         destruct (p_atom row f ts) as [[a r1]|] eqn:E; [|discriminate]. destruct (IHa _ _ _ E) as [L1 E1].
-        destruct r1 as [|[x k|g|s| | | | | | | | | | ] r1];
+        destruct r1 as [|[x k|g|s| | | | | | | | | | |xt] r1];
           try (inversion H; subst; split; [exact L1|];
                match goal with |- p_power row (2 + 8 * ?n) ?t = _ =>
                  replace (2 + 8 * n) with (S (1 + 8 * n)) by lia; rewrite p_power_S; rewrite E1; reflexivity end).
@@ -167,11 +167,11 @@ Section Mono.
         rewrite (mono_atom' _ _ _ (1 + 8 * (len ts - len rest)) E1 ltac:(lia)).
         rewrite (mono_factor' _ _ _ (1 + 8 * (len ts - len rest)) E3 ltac:(lia)). reflexivity.
       + (* p_atom *) intros ts e rest H. rewrite p_atom_S in H.
-        destruct ts as [|[x k|g|s| | | | | | | | | | ] r0]; try discriminate.
+        destruct ts as [|[x k|g|s| | | | | | | | | | |xt] r0]; try discriminate.
         * destruct (row x) as [i|] eqn:Er; [|discriminate]. inversion H; subst. cbn [length]. split; [lia|].
           replace (1 + 8 * (S (len rest) - len rest)) with (S (8 * (S (len rest) - len rest))) by lia.
           rewrite p_atom_S, Er. reflexivity.
-        * destruct r0 as [|[x k|g'|s| | | | | | | | | | ] r0]; try discriminate.
+        * destruct r0 as [|[x k|g'|s| | | | | | | | | | |xt] r0]; try discriminate.
           destruct (fun_kind g) as [k|] eqn:Ek; [|discriminate].
           destruct (p_args row f r0) as [[args r1]|] eqn:E; [|discriminate].
           destruct (apply_fun k args) as [e'|] eqn:Ef; [|discriminate]. inversion H; subst.
@@ -182,13 +182,13 @@ Section Mono.
           replace (1 + 8 * (S (len rest) - len rest)) with (S (8 * (S (len rest) - len rest))) by lia.
           rewrite p_atom_S, En. reflexivity.
         * destruct (p_expr row f r0) as [[e' r1]|] eqn:E; [|discriminate].
-          destruct r1 as [|[x k|g|s| | | | | | | | | | ] r1]; try discriminate. inversion H; subst.
+          destruct r1 as [|[x k|g|s| | | | | | | | | | |xt] r1]; try discriminate. inversion H; subst.
           destruct (IHe _ _ _ E) as [L1 E1]. cbn [length] in *. split; [lia|].
           replace (1 + 8 * (S (len r0) - len rest)) with (S (8 * (S (len r0) - len rest))) by lia.
           rewrite p_atom_S. rewrite (mono_expr' _ _ _ (8 * (S (len r0) - len rest)) E1 ltac:(lia)). reflexivity.
       + (* p_args *) intros ts es rest H. rewrite p_args_S in H.
         destruct (p_expr row f ts) as [[e r1]|] eqn:E; [|discriminate]. destruct (IHe _ _ _ E) as [L1 E1].
-        destruct r1 as [|[x k|g|s| | | | | | | | | | ] r1]; try discriminate.
+        destruct r1 as [|[x k|g|s| | | | | | | | | | |xt] r1]; try discriminate.
         * inversion H; subst. cbn [length] in *. split; [lia|].
           replace (1 + 8 * (len ts - len rest)) with (S (8 * (len ts - len rest))) by lia. rewrite p_args_S.
           rewrite (mono_expr' _ _ _ (8 * (len ts - len rest)) E1 ltac:(lia)). reflexivity.
